@@ -144,6 +144,16 @@ def check_isd(isd, doc, src_ids, acc, case, t):
         has_content = True
         if e.get_text() == "":
           v("C13.empty-text", "empty", None, "no empty text node")
+        # wherever a default-space text node sits (paragraph, ruby base, annotation or delimiter): collapsed inside
+        par = e.parent()
+        if par is not None and par.get_space() is model.WhiteSpaceHandling.DEFAULT:
+          txt = e.get_text()
+          if re.search(r"[\t\r\n]", txt) or "  " in txt:
+            anc, host = par, None
+            while anc is not None and host is None:
+              host = type(anc).__name__ if isinstance(anc, (model.P, model.Rt, model.Rtc, model.Rp, model.Rb)) else None
+              anc = anc.parent()
+            v("C13.ws.default.collapse", f"inside,host={host}", txt, "no TAB/CR/LF and no two adjacent spaces in default text")
       if isinstance(e, model.Br):
         has_content = True
       if isinstance(e, model.Span) and not ch:
@@ -333,7 +343,7 @@ def fam_ws_ruby():
     if pat == 0:
       kids = [node("rb", rbk, id="rb"), node("rt", rtk, id="rt")]
     elif pat == 1:
-      kids = [node("rb", rbk, id="rb"), node("rp", [sp("p1", "(")], id="rp1"), node("rt", rtk, id="rt"), node("rp", [sp("p2", ")")], id="rp2")]
+      kids = [node("rb", rbk, id="rb"), node("rp", [sp("p1", "  (  ")], id="rp1"), node("rt", rtk, id="rt"), node("rp", [sp("p2", " \n) ")], id="rp2")]
     elif pat == 2:
       kids = [node("rbc", [node("rb", rbk, id="rb")], id="rbc"), node("rtc", [node("rt", rtk, id="rt")], id="rtc")]
     else:
